@@ -16,6 +16,9 @@ package main
 import (
 	"fmt"
 	"runtime"
+	"os"
+	"runtime/pprof"
+	"strings"
 	"sync"
 	"sync/atomic"
 	"time"
@@ -28,6 +31,7 @@ type Case struct {
 	Space string `json:"space,omitempty"`
 	N     int    `json:"n,omitempty"`
 	Idx   int64  `json:"idx,omitempty"`
+	Rot   int    `json:"rot,omitempty"`
 	Ctx   string `json:"ctx,omitempty"`
 	T1    string `json:"t1,omitempty"`
 	T2    string `json:"t2,omitempty"`
@@ -37,6 +41,9 @@ type Case struct {
 }
 
 type fail struct{ sig, what string }
+
+var stopProfile = func() {}
+var ballast []byte
 
 var spaces sync.Map
 
@@ -58,7 +65,7 @@ func runCase(c Case) ([]fail, string) {
 		if c.N < 0 || c.N >= len(s.T) || c.Idx < 0 || c.Idx >= s.T[c.N] {
 			return []fail{{"internal/bad-case", "index out of range"}}, ""
 		}
-		res := runPrec(s, c.N, c.Idx)
+		res := runPrec(s, c.N, c.Idx, c.Rot)
 		return res.fails, fmt.Sprintf("text=%q expected=%s parsed=%s", res.text, res.expect, res.got)
 	case "asi":
 		ctx, t1, t2 := ctxByName[c.Ctx], tokByText[c.T1], tokByText[c.T2]
@@ -121,14 +128,37 @@ func newTally(r *report.Run) *tally {
 	return &tally{r: r, outcomes: map[string]int64{}, counts: map[string]int64{}}
 }
 
+// flush folds the chunk's tallies into the process-wide aggregate; the
+// aggregate is handed to the report once, by the main goroutine (the report's
+// Outcome is one locked increment per call - calling it from 16 workers for
+// every case serialises the whole run).
 func (t *tally) flush() {
+	aggMu.Lock()
 	for k, n := range t.outcomes {
-		for i := int64(0); i < n; i++ {
-			t.r.Outcome(k)
-		}
+		aggOutcomes[k] += n
 	}
 	for k, n := range t.counts {
-		t.r.Count(k, n)
+		aggCounts[k] += n
+	}
+	aggMu.Unlock()
+}
+
+var (
+	aggMu       sync.Mutex
+	aggOutcomes = map[string]int64{}
+	aggCounts   = map[string]int64{}
+)
+
+func flushAggregate(r *report.Run) {
+	aggMu.Lock()
+	defer aggMu.Unlock()
+	for k, n := range aggOutcomes {
+		for i := int64(0); i < n; i++ {
+			r.Outcome(k)
+		}
+	}
+	for k, n := range aggCounts {
+		r.Count(k, n)
 	}
 }
 
@@ -150,6 +180,17 @@ func main() {
 		}
 		return
 	}
+	if pf := os.Getenv("C20_CPUPROFILE"); pf != "" {
+		if f, err := os.Create(pf); err == nil {
+			_ = pprof.StartCPUProfile(f)
+			defer pprof.StopCPUProfile()
+			stopProfile = pprof.StopCPUProfile
+		}
+	}
+	// every case makes many tiny short-lived allocations while the live heap is
+	// a few MB: an (untouched) ballast keeps the collector from running every
+	// few milliseconds.
+	ballast = make([]byte, 256<<20)
 	r := report.New("C20")
 	thorough := r.Thorough()
 	deadline := time.Duration(r.Pick(80, 840)) * time.Second
@@ -172,22 +213,35 @@ func main() {
 		to   int
 	}
 	full := getSpace("full")
-	runs := []precRun{{full, 0, r.Pick(3, 4)}}
-	if thorough {
-		runs = append(runs, precRun{getSpace("reduced"), 5, 5})
+	// full operator set up to the tier's bound, then one more level over the reduced set
+	runs := []precRun{{full, 0, r.Pick(3, 4)}, {getSpace("reduced"), r.Pick(4, 5), r.Pick(4, 5)}}
+	r.Set("a.max_operators_full_set", r.Pick(3, 4))
+	r.Set("a.max_operators_reduced_set", r.Pick(4, 5))
+	var redNames []string
+	for _, o := range reducedOps {
+		redNames = append(redNames, o.name)
+	}
+	r.Set("a.reduced_set", redNames)
+	r.Set("a.leaf_rotations", leafRotations)
+	partStart := time.Now()
+	partDone := func(name string) {
+		r.Set("wall_s."+name, time.Since(partStart).Seconds())
+		partStart = time.Now()
 	}
 	for _, run := range runs {
 		for n := run.from; n <= run.to; n++ {
-			total := run.sp.T[n]
-			r.Set(fmt.Sprintf("a.trees.%s.n=%d", run.sp.name, n), total)
+			nrot := int64(len(leafRotations))
+			total := run.sp.T[n] * nrot
+			r.Set(fmt.Sprintf("a.trees.%s.n=%d", run.sp.name, n), run.sp.T[n])
 			parallelChunks(total, 512, func(lo, hi int64) {
 				if over("a") {
 					return
 				}
 				t := newTally(r)
 				for i := lo; i < hi; i++ {
-					res := runPrec(run.sp, n, i)
-					c := Case{Part: "prec", Space: run.sp.name, N: n, Idx: i, Info: res.text + "  =>  " + res.expect}
+					rot := leafRotations[i%nrot]
+					res := runPrec(run.sp, n, i/nrot, rot)
+					c := Case{Part: "prec", Space: run.sp.name, N: n, Idx: i / nrot, Rot: rot, Info: res.text + "  =>  " + res.expect}
 					switch {
 					case len(res.fails) == 0:
 						t.outcomes["a:grouped-as-documented,reprint-ok"]++
@@ -208,6 +262,8 @@ func main() {
 			})
 		}
 	}
+
+	partDone("a")
 
 	// ---- (b) semicolon insertion ------------------------------------------------
 	{
@@ -261,6 +317,8 @@ func main() {
 		r.Set("b.distinct_token_pairs_with_a_parseable_layout", pairs.Len())
 	}
 
+	partDone("b")
+
 	// ---- (c) literals --------------------------------------------------------------
 	{
 		maxLen := r.Pick(5, 6)
@@ -286,11 +344,38 @@ func main() {
 				for _, f := range fails {
 					r.Violation(f.sig, f.what, Case{Part: "num", Src: src})
 				}
+				// upper-case twin (0X1P-2, 0B1, 1E5, hex digits A-F) of every shorter spelling
+				if up := strings.ToUpper(src); len(src) < maxLen && up != src {
+					fails, obs := runNum(up)
+					t.outcomes["c:num:"+obs.class]++
+					t.counts["c.num-spellings-upper-case"]++
+					if obs.goAccept {
+						t.counts["c.num-spellings-valid-in-go"]++
+						nontrivial.Add(1)
+					}
+					for _, f := range fails {
+						r.Violation(f.sig, f.what, Case{Part: "num", Src: up})
+					}
+					states.Add(1)
+				}
 			}
 			t.counts["c.num-spellings"] += hi - lo
 			t.flush()
 			states.Add(hi - lo)
 		})
+		for _, src := range boundaryNums() {
+			fails, obs := runNum(src)
+			aggOutcomes["c:num:"+obs.class]++
+			aggCounts["c.num-boundary-spellings"]++
+			if obs.goAccept {
+				aggCounts["c.num-spellings-valid-in-go"]++
+				nontrivial.Add(1)
+			}
+			for _, f := range fails {
+				r.Violation(f.sig, f.what, Case{Part: "num", Src: src})
+			}
+			states.Add(1)
+		}
 		qLen := r.Pick(4, 5)
 		r.Set("c.quoted_symbols", quotedSyms)
 		r.Set("c.quoted_max_body_len", qLen)
@@ -328,6 +413,8 @@ func main() {
 		})
 	}
 
+	partDone("c")
+
 	// ---- (d) print -> reparse -> recompile ---------------------------------------
 	{
 		slot := slotPrograms()
@@ -336,8 +423,25 @@ func main() {
 		r.Set("d.slot_templates", len(slotTemplates))
 		r.Set("d.expression_pool", len(exprPool))
 		r.Set("d.structure_max_statements", maxStmts)
-		progs := append(append([]string{}, slot...), structure...)
-		seen := report.NewDistinctSet()
+		// one list without duplicates (a few slot programs are also structure
+		// programs), built sequentially so that the counts do not depend on
+		// scheduling
+		var progs []string
+		var nSlot int64
+		{
+			seen := map[string]bool{}
+			for i, p := range append(append([]string{}, slot...), structure...) {
+				if seen[p] {
+					r.Count("d.duplicate-programs-skipped", 1)
+					continue
+				}
+				seen[p] = true
+				progs = append(progs, p)
+				if i < len(slot) {
+					nSlot++
+				}
+			}
+		}
 		parallelChunks(int64(len(progs)), 128, func(lo, hi int64) {
 			if over("d") {
 				return
@@ -345,12 +449,8 @@ func main() {
 			t := newTally(r)
 			for i := lo; i < hi; i++ {
 				src := progs[i]
-				if !seen.Add(src) {
-					t.counts["d.duplicate-programs-skipped"]++
-					continue
-				}
 				fam := "structure"
-				if i < int64(len(slot)) {
+				if i < nSlot {
 					fam = "slots"
 				}
 				fails, obs := runProg(src)
@@ -375,6 +475,9 @@ func main() {
 		})
 	}
 
+	partDone("d")
+	flushAggregate(r)
+
 	if n := nPanics.Load(); n > 0 {
 		r.Note("the implementation panicked %d times (counted as rejecting the input; panics themselves are property C04's subject)", n)
 	}
@@ -392,13 +495,15 @@ func main() {
 	r.Assume("(c) reference = go/scanner (one INT/FLOAT/CHAR/STRING token, no error) + go/constant / strconv.Unquote for the value, Go toolchain " + runtime.Version() + "; a Go literal whose value is not an int64 / finite float64 counts as 'must be rejected' (Tengo int = int64, float = float64 per tutorial.md); a leading sign is not part of a literal")
 	r.Assume("(d) compilation is compared through tengo.FormatInstructions of main and of every CompiledFunction constant plus NumParameters/VarArgs/NumLocals, other constants through engine/val.Snapshot; source positions are not compared")
 
+	stopProfile()
+	runtime.KeepAlive(ballast)
 	r.Finish(report.Coverage{
 		States:      states.Load(),
 		Transitions: nParse.Load() + nScan.Load() + nCompile.Load(),
 		Validated:   states.Load(),
 		Evaluations: states.Load(),
 		Nontrivial:  nontrivial.Load(),
-		Rule: "state = one distinct input text: (a) every expression tree with <= N operator nodes over 19 binary + 4 unary operators, ternary, call, index, selector (leaves a b c d 1 2 assigned left to right), enumerated by rank; " +
+		Rule: "state = one distinct input text: (a) every expression tree with <= N operator nodes over 19 binary + 4 unary operators, ternary, call, index, selector (full operator set up to N, a reduced set at N+1; leaves assigned left to right from the cycle a b c d 1 2, each tree once starting at a and once starting at 1), enumerated by rank; " +
 			"(b) every (context, t1, t2, separator) layout; (c) every spelling of length <= L over the number alphabet, every quoted body of length <= Q over the quoted alphabet in ' \" ` quotes, every complete \\x \\u \\U \\ooo escape over the boundary digit sets; " +
 			"(d) every slot-template x pool-expression program and every statement sequence with <= S statements, nesting <= 2. transition = one parser / scanner / compiler invocation on the implementation. " +
 			"non-trivial = (a) every tree; (b) layout where both the layout and its reference spelling parse; (c) spelling that is a valid Go literal; (d) program that parses and compiles",
